@@ -179,8 +179,9 @@ def main():
     nv = len(m.VALID)
     rep.describe(
         explanation=(
-            "CrossHair/z3 symbolic execution of the real message-bus loop, reindex_database / create_database and the ZID "
-            "write-back with the crash point as a symbolic variable: the run is killed before external effect k (a session "
+            "CrossHair/z3 over the crash schedule of the real message-bus loop, reindex_database / create_database, the ZID "
+            "write-back and the modify-date stamping: the solver chooses pre-state, command and crash point, the real code runs "
+            "for that choice - the run is killed before external effect k (a session "
             "commit, a write of next_ids.json / the hash map / the whitelist / a page; thorough tier: also in the middle of a "
             "file write), then the same command runs again from what was left behind and must complete and end in the state "
             "the statement demands (index == files, every note stamped, hash map describes the files, no ZID twice, no user "
@@ -189,12 +190,12 @@ def main():
         functions=["zorg.service.messagebus._handle/_handle_message/_handle_command/_handle_event",
                    "zorg.service.handlers.reindex_database/create_database/_get_file_hash_map/_get_zo_paths_to_index/"
                    "_write_file_hash_to_disk/_get_error_file_whitelist/add_zids_to_notes_in_file/_update_zo_file/_add_zid_to_line",
-                   "zorg.storage.sql._repo._add_zids", "zorg.storage.sql._zid_manager.ZIDManager.get_next/_write_to_disk/_next_id_map",
+                   "zorg.service.handlers._check_for_modified_notes/update_note_modify_dates/_add_or_update_modify_date", "zorg.storage.sql._repo._add_zids", "zorg.storage.sql._zid_manager.ZIDManager.get_next/_write_to_disk/_next_id_map",
                    "zorg.storage.sql._session.SQLSession.collect_new_messages/add_message (unbound, on the recording session)"],
         stubs=["transactional recording session: index = page name -> note bodies, durable at commit, dropped at rollback/crash "
                "(the SQL-level content of a page and remove_file_by_name's partial commits of tag rows are NOT claimed)",
-               "walk_zorg_page = reader of three-line pages; _check_for_modified_notes = no-op (the modify-date write-back is not "
-               "crashed: C11 decides what it writes)",
+               "walk_zorg_page = reader of three-line pages (one note per page); remove_file_by_name hands back the page as the model "
+               "index holds it, so the real _check_for_modified_notes decides the stamping",
                "in-memory FS: a write is atomic (quick) or torn to its first half (thorough); a torn JSON file does not parse; "
                "_hash_file = identity; console silent; clock fixed at 2024-05-10"],
         bounds=["2 pages; per page: file in {absent, v1, v2, page with a ZID-less note}, index/hash entry in {absent, v1, v2, "
@@ -202,7 +203,7 @@ def main():
                 "db reindex <page b>, db create} x every boundary between two external effects of that run (and past the last one) x {atomic, "
                 "torn} for file writes" % (nv, nv * nv)],
         outside=["crashes inside SQLite / the OS (a commit and a non-torn write are atomic here)", "more than 2 pages / 1 note per page",
-                 "crashes during the modify-date write-back", "a crash DURING the re-run (the statement asks for one interruption)"])
+                 "pages with several notes (two write-backs queued for one page)", "a crash DURING the re-run (the statement asks for one interruption)"])
     kf_active, _ = known_findings("C13")
     kf_ids = {e["id"] for e in kf_active}
     T = 200 if tier == "quick" else 600
